@@ -495,6 +495,10 @@ def ob_peer_uses_layer(report):
                 ex.explore_pending = False
                 outs = ex.run(body_fn, [Ptr(cell, (), True), Sym('cx', 'Context')], q)
                 for o_ in outs:
+                    lvl = [e for e in o_.events if e.kind == 'close' or (e.kind == 'call' and re.search(r'Connection::close$|ActivePeers::remove(_with_stable_id)?$|(^|::)disconnect$', str(e.name)))]
+                    if lvl:
+                        return viol(ob, [ex], f'Peer::call reacts to the outcome of one RPC with a connection-level operation ({str(lvl[0].name)[:60]}): an RPC that merely timed out or failed '
+                                    'takes the sibling RPCs on that connection down with it', 'peer-layer-closes-connection', path_summary(o_), len(res) + len(outs))
                     if o_.tag != 'return' or not (isinstance(o_.ret, Agg) and o_.ret.variant == 'Ready'):
                         continue
                     val = o_.ret.fields[0]
